@@ -39,10 +39,10 @@ pub enum Policy {
 #[derive(Clone, Debug)]
 pub enum Ghost {
     Off,
-    /// every eligible try/timed acquisition fails with probability ppm / 1e6
-    Random { ppm: u32 },
-    /// the try/timed acquisitions with these run-global indices fail (if eligible)
-    At(Vec<u64>),
+    /// every eligible try/timed acquisition fails with probability ppm / 1e6, at most `max` times per run
+    Random { ppm: u32, max: u32 },
+    /// the k-th try/timed acquisition of the operation with the given label fails (if eligible)
+    At(Vec<(u32, u64)>),
 }
 
 #[derive(Clone, Debug)]
@@ -203,8 +203,12 @@ pub struct State {
     pub trace: Vec<Ev>,
     /// locks with an id below this value existed before the current operation started (only they can be held by a neighbour)
     published_below: u64,
-    /// indices (run-global, counting try/timed acquisitions) at which a ghost fault fired
-    pub ghost_fired_at: Vec<u64>,
+    /// (operation label, index of the try/timed acquisition within the operation) at which a ghost fault fired
+    pub ghost_fired_at: Vec<(u32, u64)>,
+    /// the requests that the ghost faults refused, in firing order
+    pub ghost_fired_req: Vec<LockRequest>,
+    /// number of try/timed acquisitions of the current operation so far
+    pub op_try_timed: u64,
     pub reentrant_seen: Vec<(u32, &'static Location<'static>, &'static Location<'static>)>,
     /// step counter value at the start of the client phase (policies count steps from here)
     pub phase_base: u64,
@@ -301,6 +305,8 @@ impl State {
             trace: Vec::new(),
             published_below: u64::MAX,
             ghost_fired_at: Vec::new(),
+            ghost_fired_req: Vec::new(),
+            op_try_timed: 0,
             reentrant_seen: Vec::new(),
             phase_base: 0,
         }
@@ -543,6 +549,7 @@ impl State {
             self.ev_req(tid, "request", &req);
             if is_try_or_timed {
                 self.counters.try_timed += 1;
+                self.op_try_timed += 1;
             }
             if req.mode == LockMode::Read && holds_r && !holds_w && matches!(req.kind, LockKind::Blocking) {
                 // re-entrant blocking read: fine on an idle lock, a certain deadlock once a writer queues up
@@ -572,18 +579,19 @@ impl State {
         if grantable {
             // ghost fault: a neighbour that only takes locks makes this try/timed acquisition fail
             if first && is_try_or_timed && req.id < self.published_below {
-                let idx = self.counters.try_timed - 1;
+                let idx = (self.threads[tid].cur_op, self.op_try_timed - 1);
                 let fire = match &self.cfg.ghost {
                     Ghost::Off => false,
-                    Ghost::Random { ppm } => {
-                        let ppm = *ppm;
-                        self.decide(1_000_000) < ppm
+                    Ghost::Random { ppm, max } => {
+                        let (ppm, max) = (*ppm, *max);
+                        (self.ghost_fired_at.len() as u32) < max && self.decide(1_000_000) < ppm
                     }
                     Ghost::At(list) => list.contains(&idx),
                 };
                 if fire {
                     self.counters.ghost_fired += 1;
                     self.ghost_fired_at.push(idx);
+                    self.ghost_fired_req.push(req);
                     if let LockKind::Timed(d) = req.kind {
                         self.counters.ghost_fired_timed += 1;
                         self.clock += d.as_nanos() as u64;
@@ -732,6 +740,7 @@ impl Engine {
         {
             let mut st = self.st();
             st.threads[tid].cur_op = op;
+            st.op_try_timed = 0;
             st.published_below = autosar_data::verif::peek_next_lock_id();
             st.ev_plain(tid, "op-start");
         }
